@@ -42,7 +42,7 @@ ASSUMPTIONS = [
 
 def floors(tier):
     return {"def": 450, "nominal-payload": 400, "nominal-kw": 200, "msgid": 300, "cfgkey": 1000,
-            "variant-key": 10}
+            "variant-key": 10, "source-module": 6}
 
 
 def plan(tier, seed):
@@ -100,11 +100,103 @@ def nominal_kwargs(t, nodes):
     return kw
 
 
+TABLE_MODULES = ["ubxtypes_get.py", "ubxtypes_set.py", "ubxtypes_poll.py", "ubxtypes_core.py",
+                 "ubxtypes_configdb.py", "ubxtypes_decodes.py", "ubxvariants.py"]
+
+
+def source_duplicates(path):
+    """Entries of the table modules *as written*: a key written twice in one dict
+    display, or a dict merged with update() / ** over a key that is already
+    there, silently replaces an entry - after import the table looks well formed.
+    -> [(where, key)]"""
+    import ast
+
+    tree = ast.parse(open(path, encoding="utf-8").read())
+    names = {}  # variable -> set of literal keys (module level)
+    found = []
+
+    def keyrepr(k):
+        if isinstance(k, ast.Constant):
+            return repr(k.value)
+        if isinstance(k, ast.Name):
+            return k.id
+        return None
+
+    def dict_keys(node, where):
+        keys = []
+        for k, v in zip(node.keys, node.values):
+            if k is None:  # {**other}
+                src = v.id if isinstance(v, ast.Name) else None
+                for kk in sorted(names.get(src, ())):
+                    if kk in keys:
+                        found.append((where + f" (**{src})", kk))
+                    keys.append(kk)
+                continue
+            kr = keyrepr(k)
+            if kr is None:
+                continue
+            if kr in keys:
+                found.append((where, kr))
+            keys.append(kr)
+        return keys
+
+    class V(ast.NodeVisitor):
+        def __init__(self):
+            self.path = []
+
+        def visit_Dict(self, node):
+            dict_keys(node, f"line {node.lineno}")
+            self.generic_visit(node)
+
+    for node in tree.body:
+        tgt = None
+        if isinstance(node, ast.Assign) and len(node.targets) == 1 and isinstance(node.targets[0], ast.Name):
+            tgt, val = node.targets[0].id, node.value
+        elif isinstance(node, ast.AnnAssign) and isinstance(node.target, ast.Name) and node.value is not None:
+            tgt, val = node.target.id, node.value
+        if tgt is not None and isinstance(val, ast.Dict):
+            names[tgt] = set(k for k in (keyrepr(x) for x in val.keys if x is not None) if k)
+        if (isinstance(node, ast.Expr) and isinstance(node.value, ast.Call)
+                and isinstance(node.value.func, ast.Attribute) and node.value.func.attr == "update"
+                and isinstance(node.value.func.value, ast.Name) and node.value.args):
+            dst = node.value.func.value.id
+            arg = node.value.args[0]
+            add = set()
+            if isinstance(arg, ast.Name):
+                add = names.get(arg.id, set())
+            elif isinstance(arg, ast.Dict):
+                add = set(k for k in (keyrepr(x) for x in arg.keys if x is not None) if k)
+            for kk in sorted(add & names.get(dst, set())):
+                found.append((f"line {node.lineno} ({dst}.update)", kk))
+            names.setdefault(dst, set()).update(add)
+    V().visit(tree)
+    out = []
+    for f in found:
+        if f not in out:
+            out.append(f)
+    return out
+
+
 def check(case) -> core.Out:
     import pyubx2
 
     k = case["kind"]
     out = core.Out(classes=[k], dig=None)
+    if k == "source":
+        import os
+
+        path = os.path.join(os.path.dirname(pyubx2.__file__), case["module"])
+        out.classes = ["source-module"]
+        out.nontrivial = True
+        out.sample = {"module": case["module"]}
+        if not os.path.exists(path):
+            out.classes = ["skipped:module-gone"]
+            return out
+        for where, key in source_duplicates(path):
+            out.viol.append((f"{PROP}|SOURCE|{case['module']}|duplicate-entry:{key.strip(chr(39))}",
+                             f"{case['module']} {where}: key {key} is written twice; the later entry silently "
+                             f"replaces the earlier one"))
+        return out
     if k == "def":
         mode, defname = case["mode"], case["defname"]
         tab = catalog.tables()[mode]
@@ -257,6 +349,9 @@ def run_shard(spec, ctx, acc):
         return
     acc.extra["unreachable_definitions"] = C.cat()[1]
     acc.extra["unmodelled_variants"] = [f"{m}:{k.hex()}" for m, k in C.cat()[2]]
+    for modname in TABLE_MODULES:
+        case = {"kind": "source", "module": modname}
+        core.handle(acc, check(case), case, known)
     for mk, name in pyubx2.UBX_MSGIDS.items():
         case = {"kind": "msgid", "key": mk, "name": name}
         core.handle(acc, check(case), case, known)
